@@ -14,7 +14,7 @@ def queryOf (j : Json) : Except String (Query String) := do
 
 def fieldsOf (j : Json) : Except String (List String) := do
   match ← (← field j "which").getStr? with
-  | "expr" => pure exprKeyFields
+  | "expr" => pure exprShareFields
   | "path" => pure pathKeyFields
   | s => throw s!"which = {s}"
 
